@@ -40,11 +40,12 @@ Definition index := list (N * nodes).
 
 Definition fileid_eqb (a b : fileid) : bool := (fst a =? fst b) && (snd a =? snd b).
 
-(** Stable insertion sort by rank (any stable sort gives the same list as Rust's [sort_by]). *)
+(** Stable insertion sort by rank (any stable sort gives the same list as Rust's [sort_by]):
+    elements are inserted from the right, each before the elements of equal rank already placed. *)
 Fixpoint insert_ranked (x : nat * (path * fileid)) (l : list (nat * (path * fileid))) :=
   match l with
   | [] => [x]
-  | y :: r => if (fst y <=? fst x)%nat then y :: insert_ranked x r else x :: l
+  | y :: r => if (fst y <? fst x)%nat then y :: insert_ranked x r else x :: l
   end.
 Fixpoint sort_ranked (l : list (nat * (path * fileid))) :=
   match l with [] => [] | x :: r => insert_ranked x (sort_ranked r) end.
